@@ -81,6 +81,46 @@ end
 theorem C08_equal_same_key_partial (a b : InnerConst) (hn : noFset a = true) (h : InnerConst.keyEq a b = true) :
     canon a = canon b := canon_eq_of_keyEq a b hn h
 
+theorem mem_canonList : ∀ (xs : List InnerConst) (k : InnerConst), k ∈ canonList xs ↔ ∃ x ∈ xs, canon x = k
+  | [], k => by simp [canonList]
+  | x :: xs, k => by
+    simp only [canonList, List.mem_cons, mem_canonList xs k]
+    constructor
+    · rintro (h | ⟨y, hy, h⟩)
+      · exact ⟨x, Or.inl rfl, h.symm⟩
+      · exact ⟨y, Or.inr hy, h⟩
+    · rintro ⟨y, (rfl | hy), h⟩
+      · exact Or.inl h.symm
+      · exact Or.inr ⟨y, hy, h⟩
+
+theorem noFsetList_mem : ∀ (xs : List InnerConst), noFsetList xs = true → ∀ x ∈ xs, noFset x = true
+  | [], _, _, h => by simp at h
+  | y :: ys, hn, x, h => by
+    simp only [noFsetList, Bool.and_eq_true] at hn
+    simp only [List.mem_cons] at h
+    rcases h with rfl | h
+    · exact hn.1
+    · exact noFsetList_mem ys hn.2 x h
+
+/-- **Equal frozensets have the same key** — the key of a frozenset is the *set* of its elements' keys: for frozensets
+    of frozenset-free constants (tuples at any depth allowed) that compare equal, the two key sets have the same
+    members, so `hash(frozenset(keys))` agrees (Python's frozenset hash depends only on the set of members: runtime
+    fact).  `_partial`: frozensets nested inside frozensets are not covered. -/
+theorem C08_equal_same_key_fset_partial (xs ys : List InnerConst) (hx : noFsetList xs = true)
+    (h : InnerConst.keyEq (.fset xs) (.fset ys) = true) :
+    ∀ k, k ∈ canonList xs ↔ k ∈ canonList ys := by
+  rw [keyEq_fset] at h
+  simp only [Bool.and_eq_true, List.all_eq_true, List.any_eq_true] at h
+  intro k
+  rw [mem_canonList, mem_canonList]
+  constructor
+  · rintro ⟨x, hxm, hk⟩
+    obtain ⟨y, hym, he⟩ := h.1 x hxm
+    exact ⟨y, hym, by rw [← canon_eq_of_keyEq x y (noFsetList_mem xs hx x hxm) he]; exact hk⟩
+  · rintro ⟨y, hym, hk⟩
+    obtain ⟨x, hxm, he⟩ := h.2 y hym
+    exact ⟨x, hxm, by rw [canon_eq_of_keyEq x y (noFsetList_mem xs hx x hxm) he]; exact hk⟩
+
 /-- non-vacuity / the case the repaired defect was about: two different NaN payloads inside a tuple -/
 example : InnerConst.keyEq (.tuple [.float 0x7ff8000000000000, .int 1]) (.tuple [.float 0x7ff8000000000001, .int 1]) = true ∧
     canon (.tuple [.float 0x7ff8000000000000, .int 1]) = canon (.tuple [.float 0x7ff8000000000001, .int 1]) := by
